@@ -2,9 +2,10 @@
 # usage: seedtest.sh <seed dir with patch.diff> <check id> [tier] -- applies the patch to /repo, runs the check, reverts
 D=$1; ID=$2; TIER=${3:-quick}
 cd /repo && git diff --quiet || { echo "repo dirty"; exit 9; }
-git -C /repo apply "$D/patch.diff" 2>/dev/null || git -C /repo apply -3 "$D/patch.diff" 2>/dev/null || { echo "PATCH DOES NOT APPLY: $D"; git -C /repo checkout -- . ; exit 8; }
+PATCH="$D/patch.diff"; [ -f "$D/patch.rebased.diff" ] && PATCH="$D/patch.rebased.diff"
+git -C /repo apply "$PATCH" 2>/dev/null || { echo "PATCH DOES NOT APPLY: $D"; git -C /repo reset -q --hard HEAD; exit 8; }
 cd /verif && timeout 1500 ./check $ID $TIER ${SEED_ARGS:-} > /tmp/seedtest.$$.log 2>&1; rc=$?
-git -C /repo checkout -- . ; git -C /repo reset -q
+git -C /repo reset -q --hard HEAD
 grep -a 'VIOLATION\|class=\|RESULT\|HARNESS' /tmp/seedtest.$$.log | cut -c1-400 | head -${SEED_LINES:-8}
 echo "seed $D check $ID exit=$rc"
 rm -f /tmp/seedtest.$$.log
